@@ -39,3 +39,6 @@
 ;@heap fnAllocated A_H_interpreter_Function
 (define-fun varStmtAllocated ((a (Array Int Bool)) (r Int)) Bool (select a r))
 ;@heap varStmtAllocated A_H_ast_VarStmt
+; C12/C13: the canonical (ascending) enumeration of the names in a domain
+(declare-fun sortedKeyOf ((Array Str Bool) Int) Str)
+(define-fun strlt ((a Str) (b Str)) Bool (str.lt a b))
